@@ -15,6 +15,9 @@ import (
 	"net/http/httptest"
 	"os"
 	"path/filepath"
+	"runtime"
+	"sort"
+	"sync"
 	"strconv"
 	"strings"
 	"syscall"
@@ -95,6 +98,7 @@ type World struct {
 	Ext *handlers.External // not registered as a listener: only its Request method is used
 	SQL *sql.DB            // independent connection for reading the tables
 	own bool               // Dir was created by NewWorld
+	Reopened bool          // Reopen() was used: only the sessions active at that time are in memory
 }
 
 // NewWorld creates a scratch dir with a fresh database.  With existed=true the file
@@ -286,3 +290,146 @@ func LinkRows(q *sql.DB) ([]LinkRow, error) {
 	}
 	return out, rows.Err()
 }
+
+// ------------------------------------------------------------------ pre-existing database files
+
+// GoldenPath is a database file holding only the schema, created ONCE by the unchanged
+// tree's db.DatabaseNew (see golden_test.go) and committed: it stands for the file of a
+// deployed teamserver that a later build opens (db.Existed() == true, no migration).
+func GoldenPath() string {
+	_, file, _, _ := runtime.Caller(0)
+	return filepath.Join(filepath.Dir(file), "..", "..", "testdata", "golden-schema.db")
+}
+
+// NewWorldMode: mode "fresh" (file created by this teamserver object), "existed" (created by
+// the current code, then opened again), "golden" (a copy of the committed file is opened).
+// The mode actually used is returned (golden falls back to existed when the file is missing).
+func NewWorldMode(tag, mode string) (*World, string, error) {
+	if mode == "golden" {
+		b, err := os.ReadFile(GoldenPath())
+		if err != nil {
+			mode = "existed"
+		} else {
+			dir, err := MkScratch(tag)
+			if err != nil {
+				return nil, mode, err
+			}
+			os.MkdirAll(filepath.Join(dir, "data"), 0o755)
+			if err := os.WriteFile(tsx.DBPath(dir), b, 0o644); err != nil {
+				os.RemoveAll(dir)
+				return nil, mode, err
+			}
+			w, err := OpenWorld(dir)
+			if err != nil {
+				os.RemoveAll(dir)
+				return nil, mode, err
+			}
+			w.own = true
+			return w, mode, nil
+		}
+	}
+	w, err := NewWorld(tag, mode == "existed")
+	if mode != "existed" {
+		mode = "fresh"
+	}
+	return w, mode, err
+}
+
+// Schema returns table name -> CREATE statement.
+func Schema(q *sql.DB) (map[string]string, error) {
+	rows, err := q.Query(`SELECT name, sql FROM sqlite_master WHERE type = 'table' ORDER BY name`)
+	if err != nil {
+		return nil, err
+	}
+	defer rows.Close()
+	out := map[string]string{}
+	for rows.Next() {
+		var n, s string
+		if err := rows.Scan(&n, &s); err != nil {
+			return nil, err
+		}
+		out[n] = s
+	}
+	return out, rows.Err()
+}
+
+var (
+	schemaOnce sync.Once
+	schemaDiff []string
+)
+
+// SchemaDiff lists the tables whose definition in the golden file differs from the one a
+// freshly created database gets from the code under test (computed once per process).
+// A difference alone is not a finding: it only explains why a history may behave
+// differently on an existing file.
+func SchemaDiff() []string {
+	schemaOnce.Do(func() {
+		g, err := sql.Open("sqlite3", "file:"+GoldenPath()+"?mode=ro")
+		if err != nil {
+			return
+		}
+		defer g.Close()
+		gs, err := Schema(g)
+		if err != nil {
+			return
+		}
+		w, err := NewWorld("schema", false)
+		if err != nil {
+			return
+		}
+		defer w.Close()
+		fs, err := Schema(w.SQL)
+		if err != nil {
+			return
+		}
+		seen := map[string]bool{}
+		for n, s := range gs {
+			seen[n] = true
+			if fs[n] != s {
+				schemaDiff = append(schemaDiff, n)
+			}
+		}
+		for n := range fs {
+			if !seen[n] {
+				schemaDiff = append(schemaDiff, n)
+			}
+		}
+		sort.Strings(schemaDiff)
+	})
+	return schemaDiff
+}
+
+// Reopen abandons the running teamserver object and builds a new one on the same file,
+// restoring sessions and links the way (*Teamserver).Start() does (teamserver.go: DB.AgentAll,
+// AgentAdd for each, then ParentOf / LinksOf; transcribed, Start() itself needs sockets).
+// From here on db.Existed() is true whatever created the file.
+func (w *World) Reopen() error {
+	if w.SQL != nil {
+		w.SQL.Close()
+	}
+	tsx.CloseTS(w.TS)
+	nw, err := OpenWorld(w.Dir)
+	if err != nil {
+		return err
+	}
+	w.TS, w.Ext, w.SQL = nw.TS, nw.Ext, nw.SQL
+	w.Reopened = true
+	ts := w.TS
+	agents := ts.DB.AgentAll()
+	for _, a := range agents {
+		ts.AgentAdd(a)
+	}
+	for _, a := range agents {
+		if pid, err := ts.ParentOf(a); err == nil {
+			a.Pivots.Parent = ts.AgentInstance(pid)
+		}
+		for _, id := range ts.LinksOf(a) {
+			if l := ts.AgentInstance(id); l != nil {
+				a.Pivots.Links = append(a.Pivots.Links, l)
+			}
+		}
+	}
+	return nil
+}
+
+func openRO(p string) (*sql.DB, error) { return sql.Open("sqlite3", "file:"+p+"?mode=ro") }
